@@ -61,8 +61,9 @@ BOUNDS = {
     'quick': {'skeletons': 'single op per kind + 8 two/three-op propagation '
               'graphs', 'configs': 'every policy-accepted config per kind '
               '(8-bit activations for the propagation graphs)'},
-    'thorough': {'skeletons': 'same', 'configs': 'same, propagation graphs '
-                 'also with 16-bit activations'},
+    'thorough': {'skeletons': 'same + 600 seeded random DAGs of 2-5 ops',
+                 'configs': 'same, propagation graphs also with 16-bit '
+                            'activations'},
 }
 REACH = {'case': ['compared']}
 F32 = z3.Float32()
@@ -444,12 +445,19 @@ def cases(tier):
             block_size=0)))]))
     if tier == 'thorough':
       cs.append((sk, 'SRQ16', [P.rule('.*', '*', 'SRQ16')]))
+  if tier == 'thorough':
+    # seeded random DAGs: several-hop propagation through arbitrary graphs
+    for sk in list(P.skeleton_family('thorough_dags'))[:600]:
+      cs.append((sk, 'SRQ8', [P.rule('.*', '*', 'SRQ8')]))
+      cs.append((sk, 'SRQ16', [P.rule('.*', '*', 'SRQ16')]))
   return cs
 
 
 def job_case(job):
   tier = job.args['tier']
-  fam = P.skeleton_family(tier)
+  fam = dict(P.skeleton_family(tier))
+  if tier == 'thorough':
+    fam.update(P.skeleton_family('thorough_dags'))
   st = Stats()
   cands, inconc, samples = [], [], []
   allc = {(s, r): rec for s, r, rec in cases(tier)}
@@ -511,7 +519,10 @@ def _np_zp_scale(mn, mx, bits, sym):
 
 def replay(c):
   d = c['data']
-  fam = P.skeleton_family('thorough')
+  fam = dict(P.skeleton_family('thorough'))
+  if d['skeleton'].startswith('dag'):
+    fam.update(P.skeleton_family('thorough_dags',
+                                 int(d['skeleton'][3:].split('_')[0])))
   mb = fam[d['skeleton']]
   recipe = {(s, r): rec for s, r, rec in cases('thorough')}[
       (d['skeleton'], d['recipe'])]
